@@ -970,6 +970,51 @@ def build_streams(chk, names, sizes):
             out = impl_real_encode('EUC-TW', t)[0].split(' trace=')[0]
             outs.append('err ' + out.split(' ')[1] if out.startswith('uerr') else out)
     fam['euctw'] = (lines, outs)
+    # ---- EUC-TW once more, now against the model over the GENERATED tables (Generated.CharsetCns*: every answer of the system
+    # iconv, dumped by tools/translate/charsetcns2lean.py): no oracle travels with the line.  `rt` = what theorem euctw_roundtrip
+    # predicts for encode(decode(b)) == b, compared with what the tool's codec does.
+    lines, outs = [], []
+    if R.ok and R.cd('UTF-32LE', 'EUC-TW') is not None:
+        rows = range(0xA1, 0xFF)
+        pool = [bytes([a, b]) for a in rows for b in (rows if sizes.get('euctw_all') else rng.sample(list(rows), 12))]
+        pool += [bytes.fromhex(h) for h in ('8ea3a1b8', 'a4bf', '8ea1a4bf', '8ea3a1b7', '8ea3a1b9', '8ea2a4a1', '8ea1a4a1', '8eafa1a1', '8eb0a1a1', '8eb1a1a1',
+                                             '8ea0a1a1', '8ea8a1a1', '8ea1a1', '8ea1', '8e', '8ea3a1b841', '418ea3a1b8', 'a4a18ea1a4a1a4a1')]
+        for p in range(1, 18):
+            for _ in range(sizes['euctw'] // 12):
+                pool.append(bytes([0x8E, 0xA0 + p, rng.randrange(0xA1, 0xFF), rng.randrange(0xA1, 0xFF)]))
+        pool += [x for c, x in CORPUS_BYTES if c == 'EUC-TW'] + G.byte_strings_euctw(rng, sizes['euctw'], plane_sample=0)
+        seen_text = set()
+        for b in pool:
+            if not b:
+                continue
+            lines.append(f'charset euctw-rdec {hexbytes(b)}')
+            out, sess = impl_real_decode('EUC-TW', b)
+            head = out.split(' trace=')[0]
+            if head.startswith('uerr'):
+                kind = sess.recorded[-1][2][0] if sess.recorded else '?'
+                head = f'err {head.split(" ")[1]} {kind}'
+            elif head.startswith('ok '):
+                try:
+                    t = timed('EUC-TW', lambda: bytes(b).decode('EUC-TW'))
+                    back = timed('EUC-TW', lambda: t.encode('EUC-TW'))
+                    head += f' rt={int(back == b)}'
+                    if len(seen_text) < sizes['euctw']:
+                        seen_text.add(t)
+                except Exception as exc:
+                    head += ' rt=' + crash(exc)
+            outs.append(head)
+        tags = ['\U000e0000', '\U000e0041', '\U000e007f', 'a\U000e0041b', '\U000e0041\uff10\U000e0001', '\U000e0080', '\U000dffff', 'a\U000e0080']
+        for t in tags + sorted(seen_text) + G.texts(rng, sorted(set(''.join(seen_text))), sizes['euctw'] // 4):
+            if not t:
+                continue
+            try:
+                t.encode('utf-32-le')
+            except UnicodeEncodeError:
+                continue
+            lines.append(f'charset euctw-renc {hexchars(t)}')
+            out = impl_real_encode('EUC-TW', t)[0].split(' trace=')[0]
+            outs.append('err ' + out.split(' ')[1] if out.startswith('uerr') else out)
+    fam['euctw-real'] = (lines, outs)
     # ---- character lists
     lines, outs = [], []
     sects = language_sections()
